@@ -48,21 +48,24 @@ CLAIMED = {
              "replies): window = min(limit, deadline-now) with limit P2 then P2*, first window = min(P2, request timeout) or the per-call timeout, "
              "final reply delivered iff every arrival is inside its window, timeout exactly at the end of the first empty window, never past the "
              "deadline, every wait bounded. Tied to the real client by a differential suite under an exact virtual clock (stub connection), plus an "
-             "independent recomputation of the windows on the implementation. Partial by nature: real elapsed time and OS timer accuracy are outside the model.",
+             "independent recomputation of the windows on the implementation. Partial by nature: real elapsed time and OS timer accuracy are outside the model."
+             " History level (Props/C05Hist): the first window of a call after any history is min(P2 of the last accepted session change, request timeout). The harness's wall clock is stepped between readings and a third of its connections return None on silence.",
         design_ref='DESIGN.md §3 C05',
         technique='Lean 4 proof (induction over schedules) + differential correspondence under a virtual clock'),
     'C06': dict(
         text="Lean theorems: for every service of the table, every code byte and tail, a 0x7F frame after k in-time 0x78 frames ends the request "
              "negative with exactly that code and name (k arbitrary, by induction); 0x78 never surfaces for any arrival list; callbacks once per 0x78 "
              "before the next wait; delivery through the decorator keeps the verdict. Tied by a call-level differential suite over all 80 entry points x all "
-             "256 codes on the real client. Call level for every service family (Props/C06Call.callWith_negative): whatever a client method would do with a positive reply, a negative-response frame of the request's service with any code but 0x78, after any number of in-time pending replies, makes the call raise the negative outcome with exactly that code - also inside a suppress block that waits for an NRC. Props/CallUnify.callInner_is_callWith shows the 13 simple entry points to be instances of the same generic body, so the call-level theorems cover every client method.",
+             "256 codes on the real client. Call level for every service family (Props/C06Call.callWith_negative): whatever a client method would do with a positive reply, a negative-response frame of the request's service with any code but 0x78, after any number of in-time pending replies, makes the call raise the negative outcome with exactly that code - also inside a suppress block that waits for an NRC. Props/CallUnify.callInner_is_callWith shows the 13 simple entry points to be instances of the same generic body, so the call-level theorems cover every client method."
+             ' History level (Props/C06Hist): after any history a negative reply with a code other than 0x78 ends the call with that code under every switch setting; tied by the hist suite with stray frames, requests built on user subclasses of services (child process) and a reused Request object.',
         design_ref='DESIGN.md §3 C06',
         technique='Lean 4 proof (induction on number of pending replies) + exhaustive-code differential suite over all entry points'),
     'C08': dict(
         text="Lean theorems about the decorator model: verdict and payload-derived content identical under all 8 switch settings, raised iff switch on, "
              "flag set iff off, other errors never swallowed, composite helpers sound when they call undecorated (and a proved counterexample when they "
              "do not). client.py's call graph is extracted by an AST walk on every run and the kernel checks `usesResult -> undecorated` and that every entry "
-             "point is managed. Tied by running every entry point x reply kinds x all 8 combinations on the real client.",
+             "point is managed. Tied by running every entry point x reply kinds x all 8 combinations on the real client."
+             ' Call level (Props/C08Call): send_request hands only well-formed outcomes to the decorator for every request, state and schedule, interpretations never raise a negative-response or timeout exception, hence whole calls of every family are switch-independent; history level (Props/C08Hist): any history run under two switch schedules gives the same verdicts, frames, waits and final state. Tied by callw under random switches, the hist suite under two switch schedules, a child-process scenario with exception subclasses, and switches changed after a refused configuration change.',
         design_ref='DESIGN.md §3 C08',
         technique='Lean 4 proof (case analysis) + AST-extracted call graph tie (decide) + metamorphic/differential suite over 8 switch settings'),
     'C09': dict(
@@ -108,7 +111,8 @@ CLAIMED = {
         text="Lean theorems: parity normalisation for all levels 1..0x7E (kernel-decided), exact seed/key request frames, complete behaviour of the composite (seed exchange "
              "first; without a good seed nothing more is sent and the algorithm is not called; otherwise exactly one call with that seed and the level as passed, result sent "
              "unmodified), at most two frames, an accepted seed has at least one byte. AST-extracted call graph pins the undecorated inner calls. Tied by histories over "
-             "all seed/key outcomes and switch settings and by all 126 levels x 6 algorithm signatures on the real client.",
+             "all seed/key outcomes and switch settings and by all 126 levels x 6 algorithm signatures on the real client."
+             ' History level (C13.stale_frames_never_seed in Props/C15Stray): deleting every stray frame from a history changes no algorithm call and no key frame.',
         design_ref='DESIGN.md §3 C13',
         technique='Lean 4 proof (case analysis; decide over all levels) + call-graph tie + differential history suite'),
     'C01': dict(
@@ -120,7 +124,8 @@ CLAIMED = {
              "a theorem for every builder, including RequestFileTransfer (rft_frame_decodes), all 13 simple wrappers and DynamicallyDefineDataIdentifier by source identifier. The sub-function "
              "dispatch of read_dtc_information and RequestFileTransfer (accepted argument kits and reply readings for every sub-function / mode byte) and the accepted interval of 30 validated "
              "arguments are obtained by running the real code on fixed probes on every run; the kernel evaluates the model on the same probes and demands the same tables (Tie/Groups, Tie/Bounds). Tied by structured calls on every entry point and wrapper: real client vs udsdrv, and the Spec decoder applied "
-             "to the frame the real client sent. Arguments given by name: the library's sub-function constants carry the ISO values (Tie/Names.subfn_iso) and a call with the constant puts that value on the wire (iso_consts suite).",
+             "to the frame the real client sent. Arguments given by name: the library's sub-function constants carry the ISO values (Tie/Names.subfn_iso) and a call with the constant puts that value on the wire (iso_consts suite)."
+             ' History level (Props/C01Hist): outside every block the frame of a call after any history is the encoding of its arguments; tied by the hist suite.',
         design_ref='DESIGN.md §3 C01',
         technique='Lean 4 proof (decode∘encode per service, list induction, table tie by decide +kernel) + differential correspondence + Spec decoder on the implementation\'s frames'),
     'C02': dict(
@@ -129,7 +134,8 @@ CLAIMED = {
              "bytes (all values below 256^w, incl. bit 63), every other ReadDTCInformation reply group (snapshot identification, snapshots by DTC / by record number with per-DID codecs, "
              "extended data by DTC / by record number, WWH-OBD, fault counters, user-defined-memory variants), ReadDataByIdentifier with fixed-length codecs, RequestFileTransfer for every "
              "mode of operation, Authentication with and without algorithm indicator. The simple services and IO control are modelled line by line and tied by the correspondence suite. "
-             "Tied by semantic reply values (field minima/maxima, 0..N records, DID sizes 1..8, per-DTC size dict) encoded by an independent reference encoder, fed to the real client and to the model. Call level (Props/C02Call): callWith_delivers — for any client method, if the final reply is a valid positive response of the request's service whose data the method's interpretation accepts with value v and every arrival (any number of response-pending replies first) falls inside the window of the wait it answers, the call returns v, whatever arrives afterwards; instantiated with the C01 frame theorems and the decode∘encode theorems for ReadDataByIdentifier, IO control and RequestDownload / Upload.",
+             "Tied by semantic reply values (field minima/maxima, 0..N records, DID sizes 1..8, per-DTC size dict) encoded by an independent reference encoder, fed to the real client and to the model. Call level (Props/C02Call): callWith_delivers — for any client method, if the final reply is a valid positive response of the request's service whose data the method's interpretation accepts with value v and every arrival (any number of response-pending replies first) falls inside the window of the wait it answers, the call returns v, whatever arrives afterwards; instantiated with the C01 frame theorems and the decode∘encode theorems for ReadDataByIdentifier, IO control and RequestDownload / Upload."
+             ' History level (Props/C02Hist): outside suppress blocks the value handed back after any history is the interpretation of the in-time final reply.',
         design_ref='DESIGN.md §3 C02',
         technique='Lean 4 proof (list induction over record lists, toBE/fromBE lemmas) + differential correspondence with a reference encoder'),
     'C03': dict(
@@ -141,7 +147,8 @@ CLAIMED = {
              "parameter, mode of operation, data format at its variable offset, authentication task, format byte / address / size in the transmitted widths, sub-function, memory selection, "
              "functional group, record numbers incl. the record-number byte of 0x05 / 0x16 replies without any DTC, snapshot DTC number). Tied by an echo-mutation suite on the real client: each "
              "echoed field of well-formed replies replaced by every other byte value / all bit flips and boundary values (model and client must agree, client must refuse), and all 80 entry points x "
-             "every other first byte. Call level for every family (Props/C03Call): callWith_accepts_only_answers — a client method returns a value only if the frame that went out is the request's payload up to the suppress bit (exactly the payload for a service without sub-function), some arrival is a valid positive response whose first byte is the request's first byte + 0x40, and the method's interpretation and echo checks accepted its data; corollaries with the concrete ISO frame and echoes for WriteDataByIdentifier, ReadDataByIdentifier, IO control, RequestFileTransfer, Authentication and ReadDTCInformation.",
+             "every other first byte. Call level for every family (Props/C03Call): callWith_accepts_only_answers — a client method returns a value only if the frame that went out is the request's payload up to the suppress bit (exactly the payload for a service without sub-function), some arrival is a valid positive response whose first byte is the request's first byte + 0x40, and the method's interpretation and echo checks accepted its data; corollaries with the concrete ISO frame and echoes for WriteDataByIdentifier, ReadDataByIdentifier, IO control, RequestFileTransfer, Authentication and ReadDTCInformation."
+             ' History level (Props/C03Hist): after any history without an open override a response is returned only if it arrived during that call and answers the frame transmitted; suites for calls after an override block left by an exception, helper objects reassigned between calls, identifiers named twice, vendor subclasses of services.',
         design_ref='DESIGN.md §3 C03',
         technique='Lean 4 proof (induction over arrival schedules; accept-implies-echo theorems per client method over a hand-written model) + single-field echo-mutation differential suite over all entry points',
         note=NOTE + ' The DTC number of extended-data replies (0x06/0x10/0x19) is not compared by the client and is not among the echoes the property lists: mutated and compared with the model, not required.'),
@@ -154,7 +161,8 @@ CLAIMED = {
              "Call level (13 simple entry points: call_documented; every other family: callWith_documented instantiated per family): for every list of frames - any bytes, any number, any timing - the method "
              "returns or raises a documented outcome (induction over arrivals). "
              "Tied by ~10 k (thorough 170 k) truncated / mutated / extended replies per run on the real client with a step budget, all switches on and off, codecs whose decode raises, and a "
-             "frame-level suite: every client entry point x whole frames as the connection delivers them (empty, 7F alone, 7F + id, truncated negative responses, foreign ids, junk; also after 0x78).",
+             "frame-level suite: every client entry point x whole frames as the connection delivers them (empty, 7F alone, 7F + id, truncated negative responses, foreign ids, junk; also after 0x78)."
+             ' The seed/key composite (Props/C04Unlock) and every step of every history (Props/C04Hist.history_documented) end in a value, a documented exception or a refusal before anything is sent; tied by the hist suite.',
         design_ref='DESIGN.md §3 C04',
         technique='Lean 4 proof (unreachability of undocumented errors for all inputs; termination by well-founded recursion) + differential fuzz correspondence'),
     'C07': dict(
@@ -174,14 +182,16 @@ CLAIMED = {
              "byte counts transmitted; an independent Annex-H decoder recovers address and size for every value that fits and the request is refused exactly when a value does not fit "
              "(nothing is cut); every 0..2^64-1 pair is transmitted under automatic sizing; the five request layouts; dynamic-DID entry lists by induction; the write echo decodes "
              "symmetrically for all 64 width pairs. Tied by a differential suite at every byte-width boundary x explicit x configured formats on the real client, echo variants, entry lists, "
-             "and the kernel-checked ALFID table tie.",
+             "and the kernel-checked ALFID table tie."
+             " Props/C14Reuse.reuse_resolution: one object under two configurations in turn (explicit, else the first configuration's, else the second one's, else smallest).",
         design_ref='DESIGN.md §3 C14',
         technique='Lean 4 proof (toBE/fromBE lemmas, strong induction for byte length, list induction) + extracted ALFID table tie + differential correspondence at width boundaries'),
     'C15': dict(
         text="Lean theorems: the wait loop never sends or flushes; every send_request log is flush, one send, then waits only (any outcome), at most one send per call and "
              "two for the composite, stale frames cannot influence a call and the queue is empty afterwards, a call is a function of (arguments, configuration, timing, flags), "
              "failing calls leave the state untouched. Tied by histories with residue frames and failures on the real client, a fresh-client replay of every call, a state-diff "
-             "monitor over all 80 entry points, and the context manager on every exit path. Over arbitrary histories (Props/C15Hist.earlier_calls_do_not_matter): after any earlier sequence of calls of any outcome (session changes excepted), seed/key composites and stray frames, a call behaves exactly as on a fresh client.",
+             "monitor over all 80 entry points, and the context manager on every exit path. Over arbitrary histories (Props/C15Hist.earlier_calls_do_not_matter): after any earlier sequence of calls of any outcome (session changes excepted), seed/key composites and stray frames, a call behaves exactly as on a fresh client."
+             ' Props/C15Stray.stray_frames_are_invisible: deleting every stray frame from a history changes no frame, wait or outcome of any call.',
         design_ref='DESIGN.md §3 C15',
         technique='Lean 4 proof (induction on arrivals; log-shape invariant) + differential/metamorphic history suite'),
     'C18': dict(
